@@ -8,8 +8,9 @@ from . import core, env, tlc
 
 
 def registry():
-    from . import p_binary, p_layout, p_file, p_cuts, p_writer, p_schema, p_logical, p_data, p_resolve
+    from . import p_binary, p_layout, p_file, p_cuts, p_writer, p_schema, p_logical, p_data, p_resolve, p_json
     return {
+        "C15": p_json.run_c15,
         "C08": p_resolve.run_c08,
         "C09": p_data.run_c09,
         "C10": p_data.run_c10,
